@@ -53,8 +53,12 @@ def eff_ref(pe, thr, ang):
     return ang
 
 
-def judge_wrapper(area, qe, thr, events):
-    """events: list of (altDec, density, angle_deg). returns violations, info"""
+INPUT_FORMS = [("f8", "f8", "f8"), ("i8", "f8", "f8"), ("i4", "i8", "i8"), ("f4", "f4", "f4"), ("i8", "f8", "f4"), (">f8", ">f8", ">f8")]
+
+
+def judge_wrapper(area, qe, thr, events, forms=("f8", "f8", "f8")):
+    """events: list of (altDec, density, angle_deg). returns violations, info. forms: dtypes of the (altDec, shower
+    energy, site) arrays handed in -- integer / single-precision / byte-swapped arrays holding the same numbers"""
     from nuspacesim.simulation.eas_optical.eas import EAS
 
     cfg = sim.make_config(extra={"detector": {"optical": {"telescope_effective_area": area, "quantum_efficiency": qe, "photo_electron_threshold": thr}}})
@@ -64,10 +68,10 @@ def judge_wrapper(area, qe, thr, events):
     table = {float(b): (ev[1], ev[2]) for b, ev in zip(beta, events)}
     spy = Spy(table)
     eas.CphotAng = spy
-    alt = np.array([ev[0] for ev in events], dtype=float)
-    E = np.full(n, 1.0)
-    lat = np.zeros(n)
-    lon = np.zeros(n)
+    alt = np.array([ev[0] for ev in events], dtype=float).astype(forms[0])
+    E = np.full(n, 1.0).astype(forms[1])
+    lat = np.zeros(n).astype(forms[2])
+    lon = np.zeros(n).astype(forms[2])
     ins = [beta.copy(), alt.copy(), E.copy(), lat.copy(), lon.copy()]
     try:
         pes, ceff = eas(beta, alt, E, lat, lon, cloudf=None)
@@ -163,12 +167,18 @@ def judge_wrapper_config_scan(seq):
     eas = EAS(cfg)
     for step in range(len(seq) + 1):
         if step:
-            k, v = CFG_STEPS[seq[step - 1]]
+            k, v = CFG_STEPS[seq[step - 1] % len(CFG_STEPS)]
+            how = seq[step - 1] // len(CFG_STEPS)  # 0: set in place, 1: optical section replaced, 2: detector section replaced
             val[k] = v
-            setattr(cfg.detector.optical, k, v)
+            if how == 0:
+                setattr(cfg.detector.optical, k, v)
+            elif how == 1:
+                cfg.detector.optical = type(cfg.detector.optical)(**val)
+            else:
+                cfg.detector = cfg.detector.model_copy(update={"optical": type(cfg.detector.optical)(**val)})
         want = call(EAS(sim.make_config(extra={"detector": {"optical": dict(val)}})))
         if call(eas) != want:
-            return [("wrapper_uses_the_configuration_in_force", [CFG_STEPS[i] for i in seq[:step]], "same as a fresh object with these values", "differs")]
+            return [("wrapper_uses_the_configuration_in_force", [(("set", "optical replaced", "detector replaced")[i // len(CFG_STEPS)],) + CFG_STEPS[i % len(CFG_STEPS)] for i in seq[:step]], "same as a fresh object with these values", "differs")]
     return []
 
 
@@ -285,10 +295,20 @@ def run(ctx):
     ctx.tick(n, ("wrapper_history",))
     for c, seq, e, o in v[:3]:
         ctx.violation(c, {"kind": "whist", "seq": seq}, e, o)
+    # the same numbers handed in as integer, single-precision and byte-swapped arrays (whole-km altitude scans)
+    for forms in INPUT_FORMS:
+        for area, qe, thr in ((2.5, 0.2, 10.0), (0.5, 1.0, 1.0)):
+            evs = [(float(a), r * thr / (area * qe), ang) for a in (-5, 0, 5, 10, 20, 25) for r, ang in ((1.0, 0.7), (3.0, 1.2), (1e3, 0.36))]
+            ctx.tick(len(evs), ("wrapper_forms", forms, area))
+            seen = set()
+            for c, e, o in judge_wrapper(area, qe, thr, evs, forms):
+                if c not in seen:
+                    seen.add(c)
+                    ctx.violation(c, {"kind": "wrap", "area": area, "qe": qe, "thr": thr, "events": evs, "forms": list(forms)}, e, o)
     nscan = 0
     for d in ((1, 2) if tier == "quick" else (1, 2, 3)):
-        for seq in itertools.product(range(len(CFG_STEPS)), repeat=d):
-            if any(CFG_STEPS[a][0] == CFG_STEPS[b][0] for a, b in zip(seq, seq[1:])) and d == 3:
+        for seq in itertools.product(range(3 * len(CFG_STEPS)), repeat=d):
+            if d == 3 and (any(CFG_STEPS[a % len(CFG_STEPS)][0] == CFG_STEPS[b % len(CFG_STEPS)][0] for a, b in zip(seq, seq[1:])) or len({i // len(CFG_STEPS) for i in seq}) == 1):
                 continue
             nscan += 1
             ctx.tick(d + 1, ("wrapper_config_scan",) + tuple(seq))
@@ -354,7 +374,7 @@ def replay(case):
         return pipeline.replay(case)
     k = case["kind"]
     if k == "wrap":
-        return judge_wrapper(case["area"], case["qe"], case["thr"], [tuple(e) for e in case["events"]])
+        return judge_wrapper(case["area"], case["qe"], case["thr"], [tuple(e) for e in case["events"]], tuple(case.get("forms", ("f8", "f8", "f8"))))
     if k == "whist":
         v, _ = judge_wrapper_history(2.5, 0.2, 10.0)
         return [(c, e, o) for c, seq, e, o in v if seq == case["seq"]]
